@@ -137,13 +137,36 @@ func Extract(root string) ([]Row, error) {
 				fnames = append(fnames, fn)
 			}
 			sort.Strings(fnames)
+			// a helper is identified by its name alone (the call sites are not type-checked), so a name that is
+			// declared more than once in the package - e.g. the method setKeysItem of searchVars (constant bounds)
+			// and of seqFunVars (computed bounds) - identifies nothing and is not used
+			declared := map[string]int{}
 			for _, fn := range fnames {
 				for _, d := range pkg.Files[fn].Decls {
 					if fd, ok := d.(*ast.FuncDecl); ok && fd.Body != nil && fd.Name.Name != "Call" {
+						declared[fd.Name.Name]++
 						if c := findCheck(fd.Body); c.has {
 							helpers[fd.Name.Name] = c
 						}
 					}
+				}
+			}
+			for name, n := range declared {
+				if n > 1 {
+					delete(helpers, name)
+				}
+			}
+			// the names under which each file imports other packages
+			imported := map[string]map[string]bool{}
+			for _, fn := range fnames {
+				imported[fn] = map[string]bool{}
+				for _, im := range pkg.Files[fn].Imports {
+					path, _ := strconv.Unquote(im.Path.Value)
+					name := path[strings.LastIndex(path, "/")+1:]
+					if im.Name != nil {
+						name = im.Name.Name
+					}
+					imported[fn][name] = true
 				}
 			}
 			for _, fn := range fnames {
@@ -179,6 +202,12 @@ func Extract(root string) ([]Row, error) {
 								return false
 							}
 							if ce, ok := n.(*ast.CallExpr); ok {
+								if se, ok := ce.Fun.(*ast.SelectorExpr); ok {
+									// pkg.Name(...) calls a function of ANOTHER package, not the helper of that name here
+									if id, ok := se.X.(*ast.Ident); ok && imported[fn][id.Name] {
+										return true
+									}
+								}
 								if h, ok := helpers[typeName(ce.Fun)]; ok {
 									c = h
 									return false
